@@ -58,3 +58,51 @@ package sliceio
 //@   ensures  advanced: f.Frame.data == old(f.Frame.data) && f.Frame.off == old(f.Frame.off) + n && f.Frame.len == old(f.Frame.len) - n
 //@   ensures  eof-iff-exhausted: (err == EOF) == (f.Frame.len == 0) && (err == nil || err == EOF)
 //@   modifies ColMem, f.Frame
+
+// ---- C07: row streams (token model of gob in /verif/trusted/gob.contracts) ----
+
+//@ func sliceio.(*Encoder).Write (ctx, f) (err)
+//@   requires e != nil && e.enc != nil && e.enc.Encoder != nil && e.crc != nil && e.crc.hside == 0 && wf(f) && forall(k, 0, len(f.data), implies(f.data[k].ops.Encode != nil, true))
+//@   ensures  length-first: implies(wclock > old(wclock), wtok[old(wclock) + 1] == tokOf(boxed(f.len, any)))
+//@   ensures  checksum-covers-the-whole-batch: implies(err == nil, e.crc.hstart == old(wclock) && wtok[wclock] == tokOf(boxed(crcOfRange(0, old(wclock), wclock - 1), any)))
+//@   ensures  at-least-length-and-checksum: implies(err == nil, wclock >= old(wclock) + 2 + len(f.data))
+//@   ensures  never-eof: err != EOF
+//@   ghost_ensures e.nwrites == old(e.nwrites) + 1 && e.lastWErr == err && e.lastOff == f.off && e.lastLen == f.len && e.encw == old(e.encw)
+//@   modifies wclock, wtok, e.crc.hstart, encCalls, lastEncCol, lastEncLo, lastEncHi
+//@   loop 1 invariant 0 <= col && col <= len(f.data) && wclock >= old(wclock) + 1 + col && e.crc.hstart == old(wclock) && e.crc.hside == 0 && wtok[old(wclock) + 1] == tokOf(boxed(f.len, any))
+
+//@ func sliceio.(*decodingReader).decode (f) (err)
+//@   requires d != nil && d.dec != nil && d.dec.Decoder != nil && d.crc != nil && d.crc.hside == 1 && wf(f) && distinctCols(f)
+//@   flag nlarith
+//@   may_panic
+//@   ensures  verified-or-error: implies(err == nil, u32OfTok(rclock) == crcOfRange(1, d.crc.hstart, rclock - 1))
+//@   ensures  window-unchanged: d.crc.hstart == old(d.crc.hstart)
+//@   ensures  consumes-forward: rclock >= old(rclock)
+//@   ensures  rows-outside-untouched: forall(c, 0, len(f.data), forall(k, implies(k < f.off || k >= f.off + f.len, ColMem[f.data[c].ptr][k] == old(ColMem[f.data[c].ptr][k]))))
+//@   ensures  other-columns-untouched: forall(c, implies(!isColOf(f, Ref(c)), ColMem[Ref(c)] == old(ColMem[Ref(c)])))
+//@   modifies rclock, ColMem, encCalls, lastEncCol, lastEncLo, lastEncHi
+//@   loop 1 invariant forall(c, implies(!isColOf(f, Ref(c)), ColMem[Ref(c)] == old(ColMem[Ref(c)])))
+//@   loop 1 invariant 0 <= col && col <= len(f.data) && rclock >= old(rclock) && d.crc.hstart == old(d.crc.hstart) && d.crc.hside == 1 && d.crc != nil && d.dec != nil && d.dec.Decoder != nil
+//@   loop 1 invariant forall(c, 0, len(f.data), forall(k, implies(k < f.off || k >= f.off + f.len, ColMem[f.data[c].ptr][k] == old(ColMem[f.data[c].ptr][k]))))
+
+//@ spec func disjointFrames(f frame.Frame, g frame.Frame) bool = forall(a, 0, len(f.data), forall(b, 0, len(g.data), f.data[a].ptr != g.data[b].ptr))
+//@ spec func scratchOK(d *decodingReader, f frame.Frame) bool = d.scratch.data == nil || (wf(d.scratch) && distinctCols(d.scratch) && len(d.scratch.data) >= 1 && compatible(f, d.scratch) && sizesAgree(f, d.scratch) && disjointFrames(f, d.scratch))
+//@ spec func bufOK(d *decodingReader, f frame.Frame) bool = d.buf.len == 0 || (d.scratch.data != nil && d.buf.data == d.scratch.data && wf(d.buf) && d.err == nil)
+
+//@ func sliceio.(*decodingReader).Read (ctx, f) (n, err)
+//@   requires d != nil && d.dec != nil && d.dec.Decoder != nil && d.crc != nil && d.crc.hside == 1
+//@   requires dest: wf(f) && distinctCols(f) && len(f.data) >= 1
+//@   requires state: scratchOK(d, f) && bufOK(d, f) && d.buf.len >= 0
+//@   flag nlarith
+//@   may_panic
+//@   ensures  sticky: implies(old(d.err) != nil, n == 0 && err == old(d.err))
+//@   ensures  bounds: 0 <= n && n <= f.len
+//@   ensures  no-rows-with-an-error: implies(err != nil, n == 0 && d.err == err)
+//@   ensures  buffered-rows-kept: implies(err == nil && rclock == old(rclock), n + d.buf.len == old(d.buf.len))
+//@   ensures  batch-accounting: implies(err == nil && rclock > old(rclock), n + d.buf.len == intOfTok(d.crc.hstart + 1))
+//@   ensures  checksum-verified-over-the-batch: implies(err == nil && rclock > old(rclock), u32OfTok(rclock) == crcOfRange(1, d.crc.hstart, rclock - 1))
+//@   ensures  rows-outside-untouched: forall(c, 0, len(f.data), forall(k, implies(k < f.off || k >= f.off + f.len, ColMem[f.data[c].ptr][k] == old(ColMem[f.data[c].ptr][k]))))
+//@   modifies d.err, d.scratch, d.buf, d.crc.hstart, rclock, ColMem, colClock, encCalls, lastEncCol, lastEncLo, lastEncHi
+//@   loop 1 invariant old(d.err) == nil && d.err == nil && d.crc.hside == 1 && d.crc != nil && d.dec != nil && d.dec.Decoder != nil && wf(f) && distinctCols(f) && colClock >= old(colClock) && scratchOK(d, f)
+//@   loop 1 invariant first-or-buffered: (rclock == old(rclock) && d.buf == old(d.buf) && ColMem == old(ColMem)) || (rclock > old(rclock) && old(d.buf.len) == 0 && d.buf.len == intOfTok(d.crc.hstart + 1) && d.buf.len > f.len && u32OfTok(rclock) == crcOfRange(1, d.crc.hstart, rclock - 1) && wf(d.buf) && d.scratch.data != nil && d.buf.data == d.scratch.data)
+//@   loop 1 invariant forall(c, 0, len(f.data), forall(k, implies(k < f.off || k >= f.off + f.len, ColMem[f.data[c].ptr][k] == old(ColMem[f.data[c].ptr][k]))))
